@@ -17,7 +17,12 @@ type c21 struct{}
 
 func init() { engine.Register(c21{}) }
 
-func (c21) PostGenerate(r *engine.Rand, sc *engine.Scenario) { chooseEnv(r, sc) }
+func (c21) PostGenerate(r *engine.Rand, sc *engine.Scenario) {
+	chooseEnv(r, sc)
+	if r.Chance(1, 3) {
+		addOtherUnitEvents(r, sc, exclSound)
+	}
+}
 
 func (c21) ID() string { return "C21" }
 
